@@ -1547,7 +1547,9 @@ class Simple(Family):
  <xs:simpleType name="Un"><xs:union memberTypes="xs:int xs:date"/></xs:simpleType>
  <xs:simpleType name="Un2"><xs:union memberTypes="xs:int xs:token"/></xs:simpleType>
  <xs:simpleType name="IntOrInts"><xs:union memberTypes="xs:int Ints"/></xs:simpleType>
- <xs:simpleType name="EnU"><xs:restriction base="IntOrInts"><xs:enumeration value="1"/><xs:enumeration value="2 3"/>
+ <xs:simpleType name="EnU"><xs:restriction base="IntOrInts"><xs:enumeration value="1"/><xs:enumeration value="2"/>
+  </xs:restriction></xs:simpleType>
+ <xs:simpleType name="EnL"><xs:restriction base="IntOrInts"><xs:enumeration value="1"/><xs:enumeration value="2 3"/>
   </xs:restriction></xs:simpleType>{types11}
  <xs:element name="root">
   <xs:complexType><xs:sequence>
@@ -1559,7 +1561,8 @@ class Simple(Family):
    <xs:element name="bo" type="xs:boolean"/>
    <xs:element name="tok" type="xs:token" minOccurs="0"/><xs:element name="lang" type="xs:language" minOccurs="0"/>
    <xs:element name="un2" type="Un2" minOccurs="0" maxOccurs="unbounded"/>
-   <xs:element name="enu" type="EnU" minOccurs="0" maxOccurs="unbounded"/>{alt}
+   <xs:element name="enu" type="EnU" minOccurs="0" maxOccurs="unbounded"/>
+   <xs:element name="enl" type="EnL" minOccurs="0" maxOccurs="unbounded"/>{alt}
   </xs:sequence><xs:attribute name="n" type="xs:positiveInteger"/></xs:complexType>
  </xs:element>
 </xs:schema>"""}
@@ -1583,8 +1586,9 @@ class Simple(Family):
             Doc('si-valid-un2-text', self._doc('<un2>abc</un2><un2>x y</un2>')),
             Doc('si-valid-un2-num', self._doc('<un2>7</un2><un2>07</un2><un2>abc</un2><un2>+7</un2>')),
             # an enumeration over a union with a list member: the decoded value may be a list
-            Doc('si-valid-enu', self._doc('<enu>1</enu><enu>2 3</enu>'), tag='union-with-list-member'),
-            Doc('si-bad-enu', self._doc('<enu>2 3</enu><enu>3 2</enu><enu>4</enu>'), 'fault:lexical', tag='union-with-list-member'),
+            Doc('si-valid-enu', self._doc('<enu>1</enu><enu>2</enu><enl>1</enl><enl>2 3</enl>'), tag='union-with-list-member'),
+            Doc('si-bad-enu', self._doc('<enu>2 3</enu><enu>4</enu><enl>3 2</enl><enl>4</enl>'), 'fault:lexical',
+                tag='union-with-list-member'),
         ]
         for d in docs:
             d.prefix_dep = True      # <qn> holds a QName
